@@ -22,6 +22,10 @@ CLAIMED = {
          "Exploration. Every opcode byte is decoded under every configuration class; every program of length <=3 (<=4 thorough) over a 51-symbol alphabet is evaluated for each address size; generated longer programs with branches, pieces, nested calls, typed operations and every Requires* suspension are evaluated in lock-step with the model: every request, the pieces, value_result and the error kind must agree, iteration limits are probed around the exact operation count, and fixed-capacity storages are judged by refinement. Both build profiles.",
          "Trusts the decoder and stack machine in harness/src/exprvm.rs (DESIGN appendix A.1). Results the standard leaves open are excluded (listed in the evidence assumptions).",
          "DESIGN.md §4 C07, appendix A.1"),
+ 'C04': ("proptest random search over generated headers x programs, per-header sweep of all 256 opcode bytes, arbitrary-bytes mode; oracle = independent line-number state machine, plus metamorphic sequences()/resume_from vs straight run",
+         "Exploration. Generated headers span every header parameter range and every v2-4 / v5 table layout; generated well-formed multi-sequence programs over the full opcode set are compared row by row on every accessor with the state machine, the directory/file tables with their version-dependent index bases are compared entry by entry, sequences() bounds and resume_from (reverse then forward order) must reproduce the straight run. For sampled headers all 256 opcode bytes are swept; for arbitrary bytes the monotonicity / address-size clauses are checked. Both build profiles.",
+         "Trusts the state machine, decoder and header assembler in harness/src/linemodel.rs (DESIGN appendix A.3). Comparison stops where behaviour is gimli policy rather than DWARF semantics (tombstoned set_address, advances beyond 2^64).",
+         "DESIGN.md §4 C04, appendix A.3"),
 }
 NOT_YET = "check not built yet in this session (machinery is being extended property by property; see DESIGN.md §4)"
 
